@@ -102,6 +102,14 @@ CHECKS = {
             "sequence repeated, Rust interface = one permutation and one released native iterator per epoch.",
             "z3; contracts as C02; tf.data repeat() recorded",
             "DESIGN.md 3/C19"),
+    "C13": ("pocomp",
+            "thread-modular symbolic summaries of the real lazy_pool.py (symx) + SMT partial-order composition over all interleavings (z3)",
+            "For each configuration (T, n<=nmax, plain / failing function / early exit) z3 decides over ALL interleavings at queue-"
+            "operation granularity: no deadlock or leaked worker, exactly-once, failure surfaces, read-ahead <= 2T+3, pool reusable; "
+            "an unwinding query and a reachability twin guard the bounds; models are replayed as gated schedules on the real pool "
+            "with real threads.",
+            "z3; queue.Queue FIFO/blocking semantics; T<=2 quick (T<=3 thorough), n<=5; a timed get may time out only on an empty queue",
+            "DESIGN.md 2.3, 3/C13"),
 }
 
 PENDING_REASON = "check not built yet in this round (work in progress; see DESIGN.md section 3 for the planned encoding)"
